@@ -129,6 +129,20 @@ def read_coverage(repo):
 # binder coverage, placement, visibility
 # ---------------------------------------------------------------------------
 
+def raw_ancestors(ps, tok):
+    out, work = set(), [tok]
+    while work:
+        r = work.pop()
+        info = ps.regions.get(r)
+        if info is None:
+            continue
+        for p in list(info['parents']) + list(info['loops']):
+            if p not in out:
+                out.add(p)
+                work.append(p)
+    return out
+
+
 def find_bind(ps, binder):
     for b in ps.binds:
         if b.get('ident') == binder['ident'] and b.get('cls') not in (None,):
@@ -180,6 +194,14 @@ def binder_records(repo):
                     v = t.bind_visible_at(b, p)
                     if v is True:
                         rec['visible_before'].append((s.variant, gen(p)))
+                    # an expression evaluated before the binding may itself create regions (conditional expression,
+                    # comprehension, lambda): those inherit the *complete* table of the region they were created in, so the
+                    # binding must not sit in that region or one of its ancestors (raw regions, before exit/entry aliasing)
+                    if t.sort_of(p) == 'expr':
+                        rv = next((reg for path, reg, _ in bp.visits if path == p), None)
+                        rb = b['region']
+                        if rv is not None and (rb == rv or rb in raw_ancestors(bp, rv)):
+                            rec['visible_before'].append((s.variant, 'regions created inside ' + gen(p)))
                 if binder['reaches_after'] and not t.bind_visible_after(b):
                     rec['not_after'].append(s.variant)
                 # a binder of a *new* scope (parameter) is bound there whatever the enclosing scope declares
